@@ -3,6 +3,10 @@ package vc
 import (
 	"fmt"
 	"strings"
+
+	"gocv/spec"
+
+	"golang.org/x/tools/go/ssa"
 )
 
 // loopFrameAssume: the function's modifies clause is a loop invariant.  After a
@@ -73,4 +77,42 @@ func (f *frame) loopFrameOblige(li *loopInfo, cond Term, st *State) {
 		sub.Base = entry.Base
 	}
 	f.vc.frameObligations(fmt.Sprintf("loop%d-frame", li.ordinal), entry, sub, cond, f.entryMods, f.spec)
+}
+
+// dynOrdinal numbers the dynamic (function-value) call sites of a function in
+// block/instruction order; `dyncall <n> <fnspec>` refers to these numbers.
+func (f *frame) dynOrdinal(cm *ssa.CallCommon) int {
+	if f.dynIdx == nil {
+		f.dynIdx = map[*ssa.CallCommon]int{}
+		n := 0
+		for _, b := range f.fn.Blocks {
+			for _, in := range b.Instrs {
+				ci, ok := in.(ssa.CallInstruction)
+				if !ok {
+					continue
+				}
+				c := ci.Common()
+				if c.IsInvoke() || c.StaticCallee() != nil {
+					continue
+				}
+				if _, isBuiltin := c.Value.(*ssa.Builtin); isBuiltin {
+					continue
+				}
+				f.dynIdx[c] = n
+				n++
+			}
+		}
+	}
+	return f.dynIdx[cm]
+}
+
+// dynSpec returns the fnspec bound to a dynamic call site by the function's contract.
+func (f *frame) dynSpec(cm *ssa.CallCommon) *spec.FuncSpec {
+	if f.spec == nil || cm.IsInvoke() || cm.StaticCallee() != nil {
+		return nil
+	}
+	if name, ok := f.spec.DynCalls[f.dynOrdinal(cm)]; ok {
+		return f.vc.P.FnSpecs[name]
+	}
+	return nil
 }
